@@ -246,6 +246,16 @@ pub fn stmt_alphabet() -> Vec<Stmt> {
         st(C::ForEach { i: Some("i".into()), k: Some("k".into()), v: Some("v".into()), iterable: b(rv("t")), body: b(sv("a", add(rv("a"), rv("v")))) }),
         st(C::ForEach { i: None, k: Some("k".into()), v: None, iterable: b(rv("t")), body: b(sg("h", rv("k"))) }),
         st(C::ForEach { i: None, k: None, v: Some("v".into()), iterable: b(C::CreateTable), body: b(sv("a", int(78))) }),
+        // loop variables are ordinary per-iteration variables: assigning them does not steer the loop
+        st(C::Repeat { n: b(int(3)), i: Some("i".into()), body: b(comp(vec![sv("i", add(rv("i"), int(1))), sv("a", add(rv("a"), rv("i")))])) }),
+        st(C::Repeat { n: b(int(3)), i: Some("i".into()), body: b(comp(vec![sv("a", add(rv("a"), rv("i"))), sv("i", int(7))])) }),
+        st(C::ForEach {
+            i: Some("i".into()),
+            k: Some("k".into()),
+            v: Some("v".into()),
+            iterable: b(rv("t")),
+            body: b(comp(vec![sv("v", add(rv("v"), int(1))), sv("i", int(5)), sv("k", int(0)), sv("a", add(rv("a"), rv("v")))])),
+        }),
         st(C::While(b(lt(rv("a"), int(3))), b(sv("a", add(rv("a"), int(1)))))),
         st(C::While(b(int(0)), b(sv("a", int(79))))),
         // conditionals
